@@ -5,6 +5,7 @@ import collections
 import copy
 import dataclasses
 import functools
+import io
 import math
 import os
 import pickle
@@ -24,16 +25,25 @@ MANIFEST = {
     "text": "Generated short programs (1-3 operations from a grammar of ~70 torch call forms: elementwise, reductions, "
             "indexing forms, narrow/select/index_select/take_along_dim/gather, cat/stack/split/split_with_sizes/chunk/"
             "unbind/tensor_split, flip/roll/permute/transpose/movedim, expand/repeat, reshape/view/flatten/squeeze/"
-            "unsqueeze, interpolate/pool/pad/grid_sample, casts, iteration, copy/deepcopy/pickle) are applied to "
-            "ImageBatch / FlowFields / Image / FlowField objects whose items carry distinct grids, and in parallel to a "
-            "plain-tensor shadow of item ids; whenever deepali returns one of its four types the grid count, grid shapes, "
-            "per-entry grid identity (as told by the shadow) and axes are checked, values are compared with plain torch, "
-            "and exceptions raised by the dispatcher on programs plain torch accepts are reported. A second facet checks "
-            "the explicit batch builders (from_images, append, batch(), iteration, collate_samples). Exploration, no proof: "
-            "a deterministic survey of every call form plus random programs.",
+            "unsqueeze, interpolate/pool/pad/grid_sample, casts, iteration, copy/deepcopy/pickle, and the explicit builders "
+            "append / from_images / batch() applied to intermediate results) are applied to ImageBatch / FlowFields / Image / "
+            "FlowField objects, and in parallel to a plain-tensor shadow of item ids. The items' grids follow a generated grid "
+            "plan: distinct geometries (optionally rotated), or items that share geometry and differ only in align_corners, "
+            "share one Grid object, hold equal-valued distinct Grid objects, or differ in one attribute by less than the "
+            "tolerance of Grid.__eq__. Whenever deepali returns one of its four types the grid count, grid shapes, per-entry "
+            "grid (as told by the shadow; size, center, spacing, direction and align_corners compared explicitly and "
+            "bit-exactly for grids that are handed on) and axes are checked, values are compared with plain torch, deep copies "
+            "/ pickles / clones must not share Grid objects or grid storage with their input, and exceptions raised by the "
+            "dispatcher on programs plain torch accepts are reported. A second facet checks the explicit batch builders "
+            "(from_images, append, batch(), iteration, collate_samples) on such grid plans, and that flow fields with different "
+            "vector axes are never merged (append, from_images, cat, collate) into one batch under a single axes label. "
+            "Exploration, no proof: a deterministic survey of every call form plus random programs.",
     "note": "Trusted: plain torch semantics of the same calls on torch.Tensor (the shadow), the closed-form item grids "
-            "(center 100*id, spacing 1+id/2) built in props/c19.py. Entries mixing data of several items are only checked "
-            "for grid count/shape. CPU, float32/float64, N<=4, spatial sizes<=4, D in {2,3}.",
+            "(geometry k: center 100*k+10*a, spacing 1+k/2+a/4, optional x-y rotation by 0.2+0.1*k rad; float32-exact values) "
+            "built in props/c19.py and that Grid(...) stores such values unchanged (asserted for every input grid). Entries "
+            "mixing data of several items are only checked for grid count/shape. Grids recomputed by the narrow override are "
+            "compared with a float64 model within 64 eps32 (center) / 4 eps32 (spacing, direction). CPU, float32/float64, "
+            "N<=4, spatial sizes<=4, D in {2,3}.",
     "technique": "property-based testing (Hypothesis) with a shadow model (same program on a plain tensor of item ids) "
                  "plus a deterministic survey of call forms",
 }
@@ -43,7 +53,13 @@ ASSUMPTIONS = [
     "entries whose data mixes several input items (sum over dim 0, transpose(0,1) with N == C, x + other batch) have no "
     "single owner; only grid count and shape are checked for them",
     "ImageBatch.narrow / Image.narrow along a spatial dimension are expected to narrow every item's own grid",
-    "deepcopy / pickle / clone must not share Grid objects or storage with the input; copy.copy may share",
+    "deepcopy / pickle / clone must not share Grid objects or grid attribute storage with the input; copy.copy may share; "
+    "whether entries of the result share Grid objects among each other is not constrained",
+    "the grid of an entry is the input item's grid in every attribute including align_corners (Grid.__eq__, which ignores "
+    "align_corners and is tolerant, is never used); a grid that is handed on unchanged is compared bit-exactly",
+    "ImageBatch.grids() returns a tuple (its documented return type, which append() relies on)",
+    "merging flow fields with different axes must either be rejected (ValueError) or not yield a flow-field result that "
+    "holds an item's unchanged vectors under another axes label; combining FlowFields with ImageBatch operands is not judged",
 ]
 
 KNOWN = Known(PROPERTY)
@@ -61,48 +77,187 @@ NAN = float("nan")
 # closed-form items: grids, data, id shadows
 
 
-def item_desc(j: int, shape, ac: bool) -> dict:
-    """Expected grid of item `j`: descriptor in grid (x, y, z) order."""
+PERT = 2.0 ** -17  # relative perturbation of one grid attribute: 64 float32 ulps, below the tolerance of Grid.__eq__
+PERT_ZERO = 2.0 ** -30  # absolute perturbation of a zero-valued attribute (Grid.__eq__: allclose(rtol=1e-5, atol=1e-8))
+
+
+def _f32(v: float) -> float:
+    """The float32 value a grid attribute given as python float `v` is stored as."""
+    return float(np.float32(v))
+
+
+def geo_desc(k: int, shape, ac: bool, rot: bool = False, pert=None) -> dict:
+    """Expected grid with closed-form geometry number `k`: descriptor in grid (x, y, z) order, float32-exact values.
+
+    rot: direction cosines are a rotation by 0.2 + 0.1 k rad in the x-y plane instead of the identity;
+    pert = [attribute, axis]: that attribute is perturbed by less than the tolerance of Grid.__eq__."""
     D = len(shape)
+    center = [100.0 * k + 10.0 * a for a in range(D)]
+    spacing = [1.0 + 0.5 * k + 0.25 * a for a in range(D)]
+    direction = [[1.0 if r == c else 0.0 for c in range(D)] for r in range(D)]
+    if rot:
+        co, si = math.cos(0.2 + 0.1 * k), math.sin(0.2 + 0.1 * k)
+        direction[0][0], direction[0][1], direction[1][0], direction[1][1] = co, -si, si, co
+    if pert:
+        what, a = pert[0], int(pert[1]) % D
+        if what == "center":
+            center[a] = center[a] * (1.0 + PERT) if center[a] != 0.0 else PERT_ZERO
+        elif what == "spacing":
+            spacing[a] = spacing[a] * (1.0 + PERT)
+        else:
+            direction[a][a] = direction[a][a] * (1.0 + PERT)
     return {"size": [int(n) for n in tuple(shape)[::-1]],
-            "center": [100.0 * j + 10.0 * a for a in range(D)],
-            "spacing": [1.0 + 0.5 * j + 0.25 * a for a in range(D)],
+            "center": [_f32(v) for v in center],
+            "spacing": [_f32(v) for v in spacing],
+            "direction": [[_f32(v) for v in row] for row in direction],
             "ac": bool(ac)}
 
 
+def item_desc(j: int, shape, ac: bool) -> dict:
+    """Expected grid of item `j` of a case without grid plan: geometry number j."""
+    return geo_desc(j, shape, ac)
+
+
 def narrow_desc(desc: dict, axis: int, start: int, length: int) -> dict:
-    """Grid of samples start..start+length-1 along grid axis `axis` (identity direction)."""
-    d = {"size": list(desc["size"]), "center": list(desc["center"]), "spacing": list(desc["spacing"]), "ac": desc["ac"]}
+    """Grid of samples start..start+length-1 along grid axis `axis` (float64 model; marked as derived)."""
+    d = {"size": list(desc["size"]), "center": list(desc["center"]), "spacing": list(desc["spacing"]),
+         "direction": [list(r) for r in desc["direction"]], "ac": desc["ac"], "derived": True}
     n = desc["size"][axis]
     d["size"][axis] = int(length)
-    d["center"][axis] = desc["center"][axis] + desc["spacing"][axis] * (start + (length - 1) / 2.0 - (n - 1) / 2.0)
+    shift = desc["spacing"][axis] * (start + (length - 1) / 2.0 - (n - 1) / 2.0)
+    for i in range(len(d["center"])):
+        d["center"][i] = desc["center"][i] + desc["direction"][i][axis] * shift
     return d
 
 
 def build_grid(desc: dict):
     from deepali.core import Grid
 
-    return Grid(size=desc["size"], center=desc["center"], spacing=desc["spacing"], align_corners=desc["ac"])
+    g = Grid(size=desc["size"], center=desc["center"], spacing=desc["spacing"], direction=desc["direction"],
+             align_corners=desc["ac"])
+    bad = grid_mismatch(g, desc)
+    if bad:  # the trusted base: a grid constructed from float32-exact values stores them unchanged
+        raise RuntimeError(f"input grid is not the described grid: {bad}")
+    return g
 
 
 def grid_mismatch(g, desc: dict) -> Optional[str]:
-    """None if the deepali grid `g` is the grid described by `desc`, else what differs."""
+    """None if the deepali grid `g` is the grid described by `desc`, else what differs.
+
+    Every attribute is compared explicitly (never with Grid.__eq__, which ignores align_corners and is tolerant):
+    size and align_corners always exactly; center, spacing and direction bit-exactly for a grid that is handed on
+    (indexing, cat, split, copy, pickle, collate, ...), within float32 round-off of the float64 model for a grid
+    that deepali recomputes (desc['derived']: ImageBatch.narrow / Image.narrow along a spatial dimension)."""
     if [int(n) for n in g.size()] != list(desc["size"]):
         return f"size {list(g.size())} != {desc['size']}"
-    c = g.center().double().tolist()
-    s = g.spacing().double().tolist()
-    for a, (cv, ce) in enumerate(zip(c, desc["center"])):
-        if not abs(cv - ce) <= 64 * EPS32 * max(1.0, abs(ce)):
-            return f"center {c} != {desc['center']}"
-    for a, (sv, se) in enumerate(zip(s, desc["spacing"])):
-        if not abs(sv - se) <= 64 * EPS32 * se:
-            return f"spacing {s} != {desc['spacing']}"
-    D = len(desc["size"])
-    if not torch.allclose(g.direction().double(), torch.eye(D, dtype=torch.float64), atol=64 * EPS32):
-        return "direction is not the identity"
     if bool(g.align_corners()) != desc["ac"]:
         return f"align_corners {g.align_corners()} != {desc['ac']}"
+    c = g.center().double().tolist()
+    s = g.spacing().double().tolist()
+    d = g.direction().double().tolist()
+    if not desc.get("derived"):
+        if c != list(desc["center"]):
+            return f"center {c} != {desc['center']}"
+        if s != list(desc["spacing"]):
+            return f"spacing {s} != {desc['spacing']}"
+        if d != [list(r) for r in desc["direction"]]:
+            return f"direction {d} != {desc['direction']}"
+        return None
+    extent = sum(sv * n for sv, n in zip(desc["spacing"], desc["size"]))
+    for cv, ce in zip(c, desc["center"]):
+        if not abs(cv - ce) <= 64 * EPS32 * max(1.0, abs(ce) + extent):
+            return f"center {c} != {desc['center']}"
+    for sv, se in zip(s, desc["spacing"]):
+        if not abs(sv - se) <= 4 * EPS32 * se:
+            return f"spacing {s} != {desc['spacing']}"
+    for rv, re_ in zip(d, desc["direction"]):
+        for v, e in zip(rv, re_):
+            if not abs(v - e) <= 4 * EPS32:
+                return f"direction {d} != {desc['direction']}"
     return None
+
+
+# grid plans: which items share geometry / differ only in align_corners / share one Grid object / are equal-valued copies /
+# differ by less than the tolerance of Grid.__eq__
+
+PLAN_RELATIONS = ("flip_ac", "same_obj", "equal", "pert")
+
+
+def draw_plan(draw, n: int, D: int, base: int = 0) -> dict:
+    """Grid plan for `n` items: {'rot': bool, 'items': [{'geo', 'ac', 'pert', 'share'}]}; entry i describes item base+i.
+
+    mode distinct: every item has its own geometry (and its own align_corners flag);
+    mode mixed / same: an item may refer to an earlier one: same geometry with the other align_corners ('flip_ac'), the very
+    same Grid object ('same_obj'), an equal-valued distinct Grid ('equal'), or equal up to a perturbation of one attribute
+    below the tolerance of Grid.__eq__ ('pert'). In mode same no item introduces a new geometry."""
+    mode = draw(st.sampled_from(["distinct", "distinct", "mixed", "mixed", "same"]))
+    items: List[dict] = []
+    for i in range(n):
+        rel = "new"
+        if i > 0 and mode == "mixed":
+            rel = draw(st.sampled_from(("new", "new") + PLAN_RELATIONS))
+        elif i > 0 and mode == "same":
+            rel = draw(st.sampled_from(("flip_ac",) + PLAN_RELATIONS))
+        if rel == "new":
+            items.append({"geo": base + i, "ac": draw(st.booleans()), "pert": None, "share": None})
+            continue
+        r = draw(st.integers(0, i - 1))
+        ref = items[r]
+        e = {"geo": ref["geo"], "ac": ref["ac"], "pert": ref["pert"], "share": None}
+        if rel == "flip_ac":
+            e["ac"] = not ref["ac"]
+        elif rel == "same_obj":
+            e["share"] = r if ref["share"] is None else ref["share"]
+        elif rel == "pert":
+            e["pert"] = None if ref["pert"] else [draw(st.sampled_from(["center", "spacing", "direction"])), draw(st.integers(0, D - 1))]
+        items.append(e)
+    return {"mode": mode, "rot": draw(st.sampled_from([False, False, True])), "items": items}
+
+
+def plan_tables(plan: dict, shape, base: int = 0) -> Tuple[Dict[int, dict], Dict[int, int]]:
+    """(expected grid of every item id, id -> id of the item whose Grid object it uses)."""
+    G, root = {}, {}
+    for i, e in enumerate(plan["items"]):
+        G[base + i] = geo_desc(e["geo"], shape, e["ac"], bool(plan.get("rot")), e.get("pert"))
+        root[base + i] = base + (i if e.get("share") is None else int(e["share"]))
+    return G, root
+
+
+def plan_labels(plan: Optional[dict], used: int) -> List[str]:
+    """Which relations occur among the first `used` items of the plan."""
+    if plan is None:
+        return ["plan=none"]
+    out = [f"plan={plan.get('mode', 'fixed')}"] + (["plan:rot"] if plan.get("rot") else [])
+    items = plan["items"][:used]
+    for i, e in enumerate(items):
+        for f in items[:i]:
+            if e["geo"] == f["geo"] and e.get("pert") == f.get("pert"):
+                if e["ac"] != f["ac"]:
+                    out.append("plan:ac_only_pair")
+                elif e.get("share") is None:
+                    out.append("plan:equal_copy")
+            elif e["geo"] == f["geo"]:
+                out.append("plan:pert_pair")
+        if e.get("share") is not None and e["share"] < used:
+            out.append("plan:shared_obj")
+    return sorted(set(out))
+
+
+class GridPool:
+    """Builds the Grid objects of items; items whose plan entries share an object get the same Grid instance."""
+
+    def __init__(self, G: Dict[int, dict], root: Optional[Dict[int, int]] = None):
+        self.G, self.root = G, root or {}
+        self.shared = {r for j, r in self.root.items() if r != j}
+        self.cache: Dict[int, Any] = {}
+
+    def grid(self, j: int):
+        r = self.root.get(j, j)
+        if r not in self.shared:
+            return build_grid(self.G[j])
+        if r not in self.cache:
+            self.cache[r] = build_grid(self.G[r])
+        return self.cache[r]
 
 
 def item_data(j: int, C: int, shape, dtype, off: float = 0.0) -> torch.Tensor:
@@ -122,14 +277,14 @@ class Obj:
         self.real, self.plain, self.lo, self.hi = real, plain, lo, hi
 
 
-def make_obj(kind: str, ids, C: int, shape, dtype, ac: bool, axes: Optional[str], off: float = 0.0) -> Obj:
+def make_obj(kind: str, ids, C: int, shape, dtype, pool: GridPool, axes: Optional[str], off: float = 0.0) -> Obj:
     from deepali.core import Axes
     from deepali.data import FlowField, FlowFields, Image, ImageBatch
 
     shape = tuple(shape)
     if kind in BATCH_KINDS:
         data = torch.stack([item_data(j, C, shape, dtype, off) for j in ids], 0)
-        grids = [build_grid(item_desc(j, shape, ac)) for j in ids]
+        grids = [pool.grid(j) for j in ids]
         sh = torch.tensor([float(j) for j in ids], dtype=torch.float64).reshape((len(ids),) + (1,) * (len(shape) + 1))
         sh = sh.expand(data.shape).clone()
         if kind == "ImageBatch":
@@ -139,7 +294,7 @@ def make_obj(kind: str, ids, C: int, shape, dtype, ac: bool, axes: Optional[str]
     else:
         j = ids[0]
         data = item_data(j, C, shape, dtype, off)
-        grid = build_grid(item_desc(j, shape, ac))
+        grid = pool.grid(j)
         sh = torch.full(data.shape, float(j), dtype=torch.float64)
         real = Image(data.clone(), grid) if kind == "Image" else FlowField(data.clone(), grid, Axes(axes))
     return Obj(real, data, sh, sh.clone())
@@ -445,11 +600,41 @@ def interpret(op: dict, D: int):
     if o == "copy":
         return "same", (lambda t, E: copy.copy(t)), []
     if o == "deepcopy":
+        if op.get("via") == "list":  # deep copy of a container holding the object (memo passed down)
+            return "same", (lambda t, E: copy.deepcopy([t, 1])[0]), []
         return "same", (lambda t, E: copy.deepcopy(t)), []
     if o == "pickle":
-        return "same", (lambda t, E: pickle.loads(pickle.dumps(t))), []
+        via = op.get("via")
+
+        def call(t, E):
+            if via == "torch_save":
+                buf = io.BytesIO()
+                torch.save(t, buf)
+                buf.seek(0)
+                return torch.load(buf, weights_only=False)
+            return pickle.loads(pickle.dumps(t, protocol=2 if via == "proto2" else pickle.DEFAULT_PROTOCOL))
+
+        return "same", call, []
     if o == "batch":
         return "struct", (lambda t, E: t.batch() if hasattr(t, "batch") else t.unsqueeze(0)), []
+    if o == "append":  # explicit builder ImageBatch.append(other batch); plain torch: cat along dim 0
+        name = op["other"]
+
+        def call(t, E):
+            b = t if name == "self" else E[name]
+            return t.append(b) if dtype_of(t) in BATCH_KINDS else torch.cat([t, b], 0)
+
+        return "struct", call, []
+    if o == "from_images":  # explicit builder from_images() of (a selection of) the items; plain torch: stack of the entries
+        idx = op.get("idx")
+
+        def call(t, E):
+            items = list(t) if idx is None else [t[int(i)] for i in idx]
+            if dtype_of(t) in BATCH_KINDS:
+                return type(t).from_images(items)
+            return torch.stack(items, 0)
+
+        return "struct", call, []
     raise ValueError(f"unknown op {o}")
 
 
@@ -484,7 +669,7 @@ def touches_dim0(op: dict, ndim: int) -> bool:
     if o in ("narrow", "select", "index_select", "take_along_dim", "gather", "cat", "stack", "split", "split_with_sizes",
              "tensor_split", "chunk", "unbind"):
         return is0(op["dim"])
-    if o == "iter":
+    if o in ("iter", "append", "from_images"):
         return True
     if o == "flip":
         return any(is0(d) for d in op["dims"])
@@ -626,6 +811,8 @@ def check_result(stt: State, r, pr, lo, hi, name: str, sfx: str, flow_in: bool):
     stt.checked += 1
     if kind in BATCH_KINDS:
         grids = r.grids()
+        if not isinstance(grids, tuple):  # documented return type Tuple[Grid, ...] (append() concatenates these tuples)
+            raise Violation(f"grids_type:{name}", f"{kind}.grids() returned a {type(grids).__name__}, not a tuple")
         if len(grids) != r.shape[0]:
             raise Violation(f"grid_count:{name}{sfx}", f"{kind}{tuple(r.shape)} carries {len(grids)} grids for {r.shape[0]} entries")
         for i, g in enumerate(grids):
@@ -676,6 +863,10 @@ def check_independent(x, r, name: str):
     for a in gr:
         if any(a is b for b in gx):
             raise Violation(f"shared_grid:{name}", f"{name} result shares a Grid object with its input")
+    ptrs = {t.data_ptr() for b in gx for t in (b.center(), b.spacing(), b.direction())}
+    for a in gr:  # (Grid.center() etc. return the stored tensors: shared storage lets an in-place edit of one reach the other)
+        if any(t.data_ptr() in ptrs for t in (a.center(), a.spacing(), a.direction())):
+            raise Violation(f"shared_grid_storage:{name}", f"{name} result has a Grid whose attribute tensors share storage with a Grid of its input")
     if r.numel() and r.data_ptr() == x.data_ptr():
         raise Violation(f"shared_data:{name}", f"{name} result shares storage with its input")
 
@@ -683,8 +874,7 @@ def check_independent(x, r, name: str):
 def initial_objects(case) -> Tuple[Obj, Dict[str, Obj], Dict[int, dict]]:
     kind, shape, C, N = case["kind"], tuple(case["shape"]), case["C"], case["N"]
     dt = _dt(case["dtype"])
-    ac, axes = case["ac"], case.get("axes")
-    G: Dict[int, dict] = {}
+    axes = case.get("axes")
     if kind in BATCH_KINDS:
         ids = list(range(N))
         M = case.get("M", 1)
@@ -692,11 +882,18 @@ def initial_objects(case) -> Tuple[Obj, Dict[str, Obj], Dict[int, dict]]:
     else:
         ids = [case.get("id", 0)]
         oids = [ids[0] + 1]
-    for j in ids + oids:
-        G[j] = item_desc(j, shape, ac)
-    main = make_obj(kind, ids, C, shape, dt, ac, axes)
-    others = {"twin": make_obj(kind, ids, C, shape, dt, ac, axes, off=0.5),
-              "other": make_obj(kind, oids, C, shape, dt, ac, axes, off=0.25)}
+    plan = case.get("gplan")
+    if plan is None:  # all items have their own geometry and the same align_corners
+        G: Dict[int, dict] = {j: item_desc(j, shape, case["ac"]) for j in ids + oids}
+        root = None
+    else:
+        G, root = plan_tables(plan, shape, ids[0])
+        if sorted(G) != ids + oids:
+            raise ValueError("grid plan does not match the items of the case")
+    pool = GridPool(G, root)  # main and 'other' may hold the very same Grid objects, the twin holds equal-valued ones
+    main = make_obj(kind, ids, C, shape, dt, pool, axes)
+    others = {"twin": make_obj(kind, ids, C, shape, dt, GridPool(G, root), axes, off=0.5),
+              "other": make_obj(kind, oids, C, shape, dt, pool, axes, off=0.25)}
     return main, others, G
 
 
@@ -798,7 +995,8 @@ def run_program(case, collect=None):
         x, p, lo, hi = rl[j], pl[j], ll[j], hl[j]
     info = {"nontrivial": stt.nt and case.get("N", 1) >= 2,
             "labels": stt.labels + [f"kind={case['kind']}", f"N={case.get('N', 1)}", f"D={D}", f"steps={nsteps}"]
-            + ([f"excluded_known:{e}" for e in case.get("excluded", [])]) + (["mixed_entries"] if stt.mixed else [])}
+            + ([f"excluded_known:{e}" for e in case.get("excluded", [])]) + (["mixed_entries"] if stt.mixed else [])
+            + plan_labels(case.get("gplan"), case.get("N", 1))}
     return info
 
 
@@ -1102,11 +1300,27 @@ def gen_cast(draw, s, batch):
 
 
 def gen_copy(draw, s, batch):
-    return {"op": draw(st.sampled_from(["copy", "deepcopy", "pickle"]))}
+    o = draw(st.sampled_from(["copy", "deepcopy", "deepcopy", "pickle", "pickle"]))
+    if o == "deepcopy":
+        return {"op": o, "via": draw(st.sampled_from([None, None, "list"]))}
+    if o == "pickle":
+        return {"op": o, "via": draw(st.sampled_from([None, None, "proto2", "torch_save"]))}
+    return {"op": o}
+
+
+def gen_builder(draw, s, batch, base_shape):
+    """Explicit batch builders applied to the current (possibly already transformed) batch."""
+    n = s[0]
+    if n == 0 or draw(st.booleans()):
+        pool = ["self"] + (["other", "other", "twin"] if tuple(s[1:]) == tuple(base_shape[1:]) else [])
+        return {"op": "append", "other": draw(st.sampled_from(pool))}
+    if draw(st.booleans()):
+        return {"op": "from_images"}
+    return {"op": "from_images", "idx": draw(st.lists(_ints(-n, n - 1), min_size=1, max_size=4))}
 
 
 FAMILIES_BATCH = (["getitem"] * 9 + ["narrowsel"] * 4 + ["catstack"] * 5 + ["split"] * 6 + ["reorder"] * 4 + ["exprep"] * 2
-                  + ["reshape"] * 2 + ["elem"] * 4 + ["reduce"] * 2 + ["functional"] * 2 + ["cast"] * 2 + ["copy"] * 3)
+                  + ["reshape"] * 2 + ["elem"] * 4 + ["reduce"] * 2 + ["functional"] * 2 + ["cast"] * 3 + ["copy"] * 5 + ["builder"] * 4)
 FAMILIES_IMAGE = (["getitem"] * 3 + ["narrowsel"] * 2 + ["catstack"] + ["split"] * 2 + ["reorder"] * 2 + ["reshape"] + ["elem"] * 3
                   + ["reduce"] + ["cast"] * 2 + ["copy"] * 3 + ["batch"] * 3)
 
@@ -1138,6 +1352,8 @@ def gen_op(draw, s, batch: bool, base_shape):
         return gen_cast(draw, s, batch)
     if fam == "copy":
         return gen_copy(draw, s, batch)
+    if fam == "builder":
+        return gen_builder(draw, s, batch, base_shape)
     return {"op": "batch"}
 
 
@@ -1184,10 +1400,12 @@ def program_cases(draw):
             "shape": shape, "dtype": draw(st.sampled_from(["float32", "float32", "float64"])), "ac": draw(st.booleans())}
     if batch:
         case["M"] = draw(st.integers(1, 2))
+        case["gplan"] = draw_plan(draw, case["N"] + case["M"], D)
     else:
         case["id"] = draw(st.integers(0, 3))
+        case["gplan"] = draw_plan(draw, 2, D, base=case["id"])
     if flow:
-        case["axes"] = draw(st.sampled_from(["world", "grid", "cube" if case["ac"] else "cube_corners"]))
+        case["axes"] = draw(st.sampled_from(["world", "grid", "cube", "cube_corners"]))
     dt = _dt(case["dtype"])
     ids = list(range(case["N"])) if batch else [case["id"]]
     if batch:
@@ -1199,7 +1417,7 @@ def program_cases(draw):
     base_shape = tuple(p.shape)
     env = {"twin": p + 0.5, "other": oth, "plain": aux(base_shape, dt)}
     ops, excluded = [], []
-    nops = draw(st.sampled_from([1, 1, 2, 2, 3]))
+    nops = draw(st.sampled_from([1, 2, 2, 3, 3]))
     spatial = tuple(shape)
     for _ in range(nops):
         nd = p.ndim
@@ -1325,6 +1543,9 @@ def survey_ops(batch: bool, nd: int, n0: int, c: int, sp) -> List[dict]:
     ops.append({"op": "squeeze", "dim": None})
     if batch:
         ops.append({"op": "iter", "pick": 1})
+        for other in ("self", "other", "twin"):
+            ops.append({"op": "append", "other": other})
+        ops.append({"op": "from_images"}), ops.append({"op": "from_images", "idx": [n0 - 1, 0, -1]})
     else:
         ops.append({"op": "batch"})
     ident = list(range(nd))
@@ -1371,7 +1592,8 @@ def survey_ops(batch: bool, nd: int, n0: int, c: int, sp) -> List[dict]:
     for fn in ("to", "to_kw", "to_device", "type"):
         for dt in ("float32", "float64", "int64"):
             ops.append({"op": "cast", "fn": fn, "dtype": dt})
-    ops += [{"op": "copy"}, {"op": "deepcopy"}, {"op": "pickle"}]
+    ops += [{"op": "copy"}, {"op": "deepcopy"}, {"op": "pickle"}, {"op": "deepcopy", "via": "list"},
+            {"op": "pickle", "via": "proto2"}, {"op": "pickle", "via": "torch_save"}]
     return ops
 
 
@@ -1385,7 +1607,47 @@ SURVEY_BASES = [
     {"kind": "Image", "N": 1, "C": 2, "shape": [3, 4], "dtype": "float32", "ac": True, "id": 2},
     {"kind": "FlowField", "N": 1, "C": 2, "shape": [3, 4], "dtype": "float32", "ac": False, "id": 1, "axes": "world"},
     {"kind": "Image", "N": 1, "C": 3, "shape": [3, 3], "dtype": "float64", "ac": True, "id": 3},
+    # batches whose items share geometry: item 1 differs from item 0 only in align_corners, item 2 uses the Grid object of
+    # item 0, item 3 differs from item 0 by less than the tolerance of Grid.__eq__; the 'other' item equals item 1
+    {"kind": "ImageBatch", "N": 4, "C": 2, "shape": [3, 4], "dtype": "float32", "ac": True, "M": 1,
+     "gplan": {"mode": "fixed", "rot": False, "items": [
+         {"geo": 0, "ac": True, "pert": None, "share": None}, {"geo": 0, "ac": False, "pert": None, "share": None},
+         {"geo": 0, "ac": True, "pert": None, "share": 0}, {"geo": 0, "ac": True, "pert": ["center", 0], "share": None},
+         {"geo": 0, "ac": False, "pert": None, "share": None}]}},
+    # rotated grids: item 1 is an equal-valued copy of item 0, item 2 differs only in align_corners, the 'other' item
+    # differs from item 0 in one spacing by less than the tolerance
+    {"kind": "FlowFields", "N": 3, "C": 2, "shape": [3, 2], "dtype": "float32", "ac": False, "M": 1, "axes": "grid",
+     "gplan": {"mode": "fixed", "rot": True, "items": [
+         {"geo": 2, "ac": False, "pert": None, "share": None}, {"geo": 2, "ac": False, "pert": None, "share": None},
+         {"geo": 2, "ac": True, "pert": None, "share": None}, {"geo": 2, "ac": False, "pert": ["spacing", 1], "share": None}]}},
 ]
+
+
+def survey_programs(batch: bool, nd: int, n0: int, sp) -> List[List[dict]]:
+    """Fixed programs of 3 operations mixing structural operations, explicit builders and copies."""
+    clone = {"op": "cast", "fn": "clone", "dtype": "float32"}
+    if not batch:
+        return [
+            [{"op": "batch"}, {"op": "deepcopy"}, {"op": "getitem", "ix": _i(0)}],
+            [{"op": "batch"}, {"op": "append", "other": "self"}, {"op": "iter", "pick": 1}],
+            [{"op": "deepcopy"}, {"op": "batch"}, {"op": "pickle"}],
+            [clone, {"op": "batch"}, {"op": "from_images"}],
+            [{"op": "pickle", "via": "torch_save"}, {"op": "batch"}, {"op": "deepcopy", "via": "list"}],
+        ]
+    n = sp[-1]
+    return [
+        [{"op": "cat", "operands": ["self", "other"], "dim": 0, "ds": "kw", "container": "list"}, {"op": "deepcopy"}, {"op": "getitem", "ix": _i(-1)}],
+        [{"op": "deepcopy"}, {"op": "append", "other": "other"}, {"op": "from_images", "idx": [-1, 0]}],
+        [{"op": "pickle"}, {"op": "getitem", "ix": _sl(1)}, clone],
+        [{"op": "narrow", "dim": nd - 1, "start": 1 if n > 1 else 0, "len": max(1, n - 1), "style": "method"}, {"op": "deepcopy"}, {"op": "iter", "pick": 1}],
+        [{"op": "from_images"}, {"op": "pickle", "via": "torch_save"}, {"op": "append", "other": "self"}],
+        [{"op": "getitem", "ix": _i(n0 - 1)}, {"op": "batch"}, {"op": "append", "other": "self"}],
+        [{"op": "copy"}, {"op": "inplace", "fn": "add_"}, {"op": "deepcopy"}],
+        [{"op": "split", "sec": 1, "dim": 0, "ds": "kw", "style": "method", "pick": 1}, {"op": "deepcopy", "via": "list"},
+         {"op": "cat", "operands": ["self", "self"], "dim": 0, "ds": "default", "container": "tuple"}],
+        [{"op": "append", "other": "twin"}, clone, {"op": "getitem", "ix": {"t": "list", "v": [n0, 0, n0 - 1]}}],
+        [{"op": "getitem", "ix": {"t": "list", "v": [n0 - 1, 0]}}, {"op": "pickle", "via": "proto2"}, {"op": "from_images"}],
+    ]
 
 
 def survey_cases(tier: str = "quick"):
@@ -1394,6 +1656,10 @@ def survey_cases(tier: str = "quick"):
         batch = base["kind"] in BATCH_KINDS
         sp = list(base["shape"])
         nd = len(sp) + (2 if batch else 1)
+        shape0 = tuple(([base["N"], base["C"]] if batch else [base["C"]]) + sp)
+        for prog in survey_programs(batch, nd, base["N"], sp):
+            if not any(known_exclusion(op, shape0, batch) for op in prog):
+                out.append(dict(base, ops=prog))
         for op in survey_ops(batch, nd, base["N"], base["C"], sp):
             shape = tuple(([base["N"], base["C"]] if batch else [base["C"]]) + sp)
             excluded = known_exclusion(op, shape, batch)
@@ -1429,17 +1695,27 @@ FIELDS = ["img", "imgs", "flow", "flows", "label", "name", "nothing"]
 
 @st.composite
 def constructor_cases(draw):
-    what = draw(st.sampled_from(["from_images", "append", "batch", "iter_roundtrip", "collate", "collate", "collate"]))
+    what = draw(st.sampled_from(["from_images", "from_images", "append", "append", "batch", "iter_roundtrip", "cat_mixed_axes",
+                                 "collate", "collate", "collate", "collate"]))
     D = draw(st.sampled_from([2, 2, 3]))
     case = {"what": what, "shape": draw(st.lists(st.integers(1, 4), min_size=D, max_size=D)), "C": draw(st.integers(1, 3)),
             "dtype": draw(st.sampled_from(["float32", "float64"])), "ac": draw(st.booleans()),
-            "flow": draw(st.booleans()), "axes": draw(st.sampled_from(["world", "grid", "cube", "cube_corners"]))}
+            "flow": draw(st.booleans()), "axes": draw(st.sampled_from(["world", "grid", "cube", "cube_corners"])),
+            "gplan": draw_plan(draw, 6, D)}
     ids = st.lists(st.integers(0, 5), min_size=1, max_size=4)
     if what in ("from_images", "iter_roundtrip"):
         case["ids"] = draw(ids)
-    elif what == "append":
+        # flow fields with different vector axes must not silently become one batch with a single axes label
+        case["mixed_axes"] = bool(what == "from_images" and case["flow"] and draw(st.sampled_from([False, True])))
+        if case["mixed_axes"] and len(case["ids"]) < 2:
+            case["ids"] = case["ids"] + [draw(st.integers(0, 5))]
+    elif what in ("append", "cat_mixed_axes"):
         case["ids"] = draw(ids)
         case["ids2"] = draw(ids)
+        case["mixed_axes"] = bool(case["flow"] and draw(st.sampled_from([False, False, True]))) or what == "cat_mixed_axes"
+        if what == "cat_mixed_axes":
+            case["flow"] = True
+            case["fn"] = draw(st.sampled_from(["cat", "cat_kw", "cat_tuple"]))
     elif what == "batch":
         case["ids"] = [draw(st.integers(0, 5))]
     else:
@@ -1466,6 +1742,8 @@ def check_batch(b, cls, ids, C, shape, dt, G, axes, kindname: str):
     if tuple(b.shape) != exp_shape:
         raise Violation(f"shape:{kindname}", f"shape {tuple(b.shape)} != {exp_shape}")
     grids = b.grids()
+    if not isinstance(grids, tuple):
+        raise Violation(f"grids_type:{kindname}", f"{cls.__name__}.grids() returned a {type(grids).__name__}, not a tuple")
     if len(grids) != len(ids):
         raise Violation(f"grid_count:{kindname}", f"{len(grids)} grids for {len(ids)} items")
     data = b.tensor()
@@ -1488,25 +1766,65 @@ def run_constructors(case):
     D = len(shape)
     C = D if flow else case["C"]
     axes = case["axes"] if flow else None
-    G = {j: item_desc(j, shape, ac) for j in range(6)}
+    plan = case.get("gplan")
+    if plan is None:
+        G, root = {j: item_desc(j, shape, ac) for j in range(6)}, None
+    else:
+        G, root = plan_tables(plan, shape)
+    pool = GridPool(G, root)  # one pool per case: items that share a Grid object do so across all samples / batches
     ICls, BCls = (FlowField, FlowFields) if flow else (Image, ImageBatch)
     what = case["what"]
+    other_axes = "grid" if case["axes"] != "grid" else "world"
 
     def item(j, fl=flow, ax=axes):
         c = D if fl else case["C"]
         d = item_data(j, c, shape, dt)
-        g = build_grid(G[j])
+        g = pool.grid(j)
         return FlowField(d, g, Axes(ax)) if fl else Image(d, g)
 
     def batch(ids, fl=flow, ax=axes):
         c = D if fl else case["C"]
         d = torch.stack([item_data(j, c, shape, dt) for j in ids], 0)
-        gs = [build_grid(G[j]) for j in ids]
+        gs = [pool.grid(j) for j in ids]
         return FlowFields(d, gs, Axes(ax)) if fl else ImageBatch(d, gs)
 
-    labels = [f"what={what}", f"flow={flow}", f"D={D}"]
+    def check_not_relabelled(b, ids, axes_of_entry, kindname):
+        """A flow-field result must not hold the unchanged vectors of an item under another axes label."""
+        if not isinstance(b, (FlowFields, FlowField)) or tuple(b.shape) != (len(ids), D) + shape:
+            return
+        data = b.tensor()
+        for i, j in enumerate(ids):
+            if b.axes().value != axes_of_entry[i] and torch.equal(data[i], item_data(j, D, shape, dt)):
+                raise Violation(f"axes_relabelled:{kindname}",
+                                f"entry {i} holds the unchanged vectors of a flow field with axes {axes_of_entry[i]} "
+                                f"but the result says {b.axes().value}")
+
+    labels = [f"what={what}", f"flow={flow}", f"D={D}"] + plan_labels(plan, 6)
     nt = False
-    if what == "from_images":
+    if what == "from_images" and case.get("mixed_axes"):
+        ids = case["ids"]
+        ax_i = [case["axes"] if i < len(ids) - 1 else other_axes for i in range(len(ids))]
+        try:
+            b = BCls.from_images([item(j, True, a) for j, a in zip(ids, ax_i)])
+        except ValueError:
+            return {"nontrivial": True, "labels": labels + ["mixed_axes_rejected"]}
+        check_not_relabelled(b, ids, ax_i, "from_images")
+        return {"nontrivial": True, "labels": labels + ["mixed_axes_accepted"]}
+    elif what in ("append", "cat_mixed_axes") and case.get("mixed_axes"):
+        ids, ids2 = case["ids"], case["ids2"]
+        b1, b2 = batch(ids, True, case["axes"]), batch(ids2, True, other_axes)
+        try:
+            if what == "append":
+                b = b1.append(b2)
+            elif case["fn"] == "cat_kw":
+                b = torch.cat([b1, b2], dim=0)
+            else:
+                b = torch.cat((b1, b2) if case["fn"] == "cat_tuple" else [b1, b2], 0)
+        except ValueError:
+            return {"nontrivial": True, "labels": labels + ["mixed_axes_rejected"]}
+        check_not_relabelled(b, ids + ids2, [case["axes"]] * len(ids) + [other_axes] * len(ids2), what if what == "append" else "cat")
+        return {"nontrivial": True, "labels": labels + ["mixed_axes_accepted"]}
+    elif what == "from_images":
         ids = case["ids"]
         b = BCls.from_images([item(j) for j in ids])
         check_batch(b, BCls, ids, C, shape, dt, G, axes, "from_images")
@@ -1542,7 +1860,6 @@ def run_constructors(case):
         nt = len(set(ids)) >= 2
     else:
         fields, ns, per, order = case["fields"], case["nsamples"], case["per"], case["order"]
-        other_axes = "grid" if case["axes"] != "grid" else "world"
         counter = [0]
 
         def next_id():
@@ -1644,6 +1961,21 @@ def selftest():
     d = narrow_desc(item_desc(1, (3, 4), True), 0, 1, 2)
     assert d["size"] == [2, 3] and abs(d["center"][0] - (100.0 + 1.5 * (1 + 0.5 - 1.5))) < 1e-12
     assert touches_dim0({"op": "flip", "dims": [-4]}, 4) and not touches_dim0({"op": "flip", "dims": [1]}, 4)
+    # grid plans: a perturbed grid differs from the unperturbed one in float32 but stays within allclose(rtol=1e-5, atol=1e-8),
+    # the comparison of Grid.__eq__; the rotated direction is orthonormal up to float32 rounding
+    for k in range(6):
+        for rot in (False, True):
+            base = geo_desc(k, (2, 3, 4), True, rot)
+            dd = np.array(base["direction"])
+            assert np.abs(dd @ dd.T - np.eye(3)).max() < 4 * EPS32
+            for what in ("center", "spacing", "direction"):
+                for a in range(3):
+                    q = geo_desc(k, (2, 3, 4), True, rot, [what, a])
+                    va, vb = np.array(q[what], dtype=np.float64).ravel(), np.array(base[what], dtype=np.float64).ravel()
+                    assert (va != vb).sum() == 1 and np.all(np.abs(va - vb) <= 1e-8 + 1e-5 * np.minimum(np.abs(va), np.abs(vb)))
+                    assert all(q[o] == base[o] for o in ("size", "center", "spacing", "direction", "ac") if o != what)
+    nd = narrow_desc(geo_desc(1, (3, 4), False, True), 1, 0, 3)
+    assert nd["center"] == geo_desc(1, (3, 4), False, True)["center"] and nd["derived"] and nd["ac"] is False
 
 
 def _nt_program(case):
@@ -1652,15 +1984,21 @@ def _nt_program(case):
 
 FACETS = [
     Facet("programs", run_program, strategy=program_cases,
-          rule="initial ImageBatch/FlowFields (N in 1..4) or Image/FlowField with distinct closed-form grids (center 100*id, spacing "
-               "1+id/2), C in 1..3, spatial sizes 1..4, D in {2,3}; 1-3 ops drawn shape-aware from the grammar (simulated on the plain "
-               "twin while drawing; ops plain torch rejects are replaced by clone); plus a deterministic survey of every call form on "
-               "9 fixed objects; non-trivial = N >= 2 and some op that reorders/selects/splits/joins along dim 0 returned a deepali type",
-          quick=1600, thorough=30000, shards=16, quick_shards=4, nontrivial=_nt_program,
+          rule="initial ImageBatch/FlowFields (N in 1..4) or Image/FlowField whose item grids follow a drawn grid plan (distinct "
+               "geometries with per-item align_corners; or items related to an earlier item: same geometry with the other "
+               "align_corners, the same Grid object, an equal-valued distinct Grid, one attribute perturbed below the tolerance of "
+               "Grid.__eq__; optional rotation), C in 1..3, spatial sizes 1..4, D in {2,3}; 1-3 ops drawn shape-aware from the grammar "
+               "incl. append/from_images/batch() on intermediate results (simulated on the plain twin while drawing; ops plain torch "
+               "rejects are replaced by clone); plus a deterministic survey of every call form on 11 fixed objects (2 with shared-"
+               "geometry grid plans); non-trivial = N >= 2 and some op that reorders/selects/splits/joins along dim 0 returned a "
+               "deepali type",
+          quick=2000, thorough=30000, shards=16, quick_shards=4, nontrivial=_nt_program,
           enumerate=survey_cases, exhaustive_tiers=("quick", "thorough")),
     Facet("constructors", run_constructors, strategy=constructor_cases,
           rule="from_images / append / batch() / iteration+from_images / collate_samples (dict, OrderedDict, dataclass, namedtuple; "
-               "Image, ImageBatch, FlowField, FlowFields, int, str, None and nested fields) on items with distinct grids drawn from 6 "
-               "ids; mixed axes must raise ValueError; non-trivial = at least two items",
-          quick=400, thorough=6000, shards=4, quick_shards=1),
+               "Image, ImageBatch, FlowField, FlowFields, int, str, None and nested fields) on items drawn from 6 ids whose grids "
+               "follow a drawn grid plan (as in facet programs); flow fields with mixed axes given to collate_samples must raise "
+               "ValueError, given to append / from_images / torch.cat must raise ValueError or not be relabelled; non-trivial = at "
+               "least two items",
+          quick=600, thorough=8000, shards=4, quick_shards=1),
 ]
